@@ -8,7 +8,7 @@ patch=$(realpath "$1"); shift
 SLOT=${SEEDSLOT:-}
 SV=/work/seedtest/verif$SLOT
 SR=/work/seedtest/repo$SLOT
-git -C /verif worktree list | grep -q "$SV" || git -C /verif worktree add -q --detach "$SV" HEAD
+git -C /verif worktree list | grep -q "$SV " || git -C /verif worktree add -q --detach "$SV" HEAD
 git -C "$SV" reset -q --hard; git -C "$SV" checkout -q -f --detach "$(git -C /verif rev-parse HEAD)"
 rm -rf "$SR"; git -C /repo worktree prune; git -C /repo worktree add -q --detach "$SR" HEAD
 if ! git -C "$SR" apply "$patch"; then echo "PATCH DOES NOT APPLY"; exit 3; fi
